@@ -61,7 +61,7 @@ func (f *StarvingMutex) RLock() {
 		f.readerCond.Wait()
 	}
 
-	if debug.GetEnabled() {
+	if doneChan != nil {
 		close(doneChan)
 	}
 
@@ -116,7 +116,7 @@ func (f *StarvingMutex) Lock() {
 	for !f.canWrite() {
 		f.writerCond.Wait()
 	}
-	if debug.GetEnabled() {
+	if doneChan != nil {
 		close(doneChan)
 	}
 	f.pendingWriters--
